@@ -22,7 +22,6 @@ import (
 	"github.com/miekg/dns"
 
 	"github.com/honeytrap/honeytrap/event"
-	"github.com/honeytrap/honeytrap/listener"
 	"github.com/honeytrap/honeytrap/pushers"
 )
 
@@ -52,22 +51,18 @@ func (s *dnsService) Handle(ctx context.Context, conn net.Conn) error {
 
 	buff := make([]byte, 65535)
 
-	if _, ok := conn.(*listener.DummyUDPConn); ok {
+	// the server hands us a wrapped connection, decide on the network of the
+	// peer address and not on the concrete connection type
+	switch network := conn.RemoteAddr().Network(); network {
+	case "udp", "tcp":
 		n, err := conn.Read(buff[:])
 		if err != nil {
 			return err
 		}
 
 		buff = buff[:n]
-	} else if _, ok := conn.(*net.TCPConn); ok {
-		n, err := conn.Read(buff[:])
-		if err != nil {
-			return err
-		}
-
-		buff = buff[:n]
-	} else {
-		log.Error("Unsupported connection type: %s", reflect.TypeOf(conn))
+	default:
+		log.Error("Unsupported connection type: %s (%s)", reflect.TypeOf(conn), network)
 		return nil
 	}
 
